@@ -62,7 +62,7 @@ func (f *Frame) ids() []int {
 var (
 	markerRe = regexp.MustCompile(`<(\d+)\|(-?\d+)/(-?\d+)\|C([01])A([01])\|(\d+)>`)
 	extRe    = regexp.MustCompile(`^<(\d+)\+(\d+)>$`)
-	prefixRe = regexp.MustCompile(`^\x1b\[(\d+)A\x1b\[J`)
+	prefixRe = regexp.MustCompile(`^\x1b\[(\d+)[AF]\x1b\[0?J`) // CUU or CPL, then ED (the same to a terminal at column 0)
 )
 
 func parseFrame(idx int, o OutRec) Frame {
